@@ -179,6 +179,10 @@ pub struct WireEntry {
 	pub handler: u8,
 	/// Some(data length) => a `fail_*` call whose error carries a string of that length
 	pub fail: Option<u16>,
+	/// (batches only) an entry without a method: answered by the fixed "Invalid request" error, which counts towards
+	/// the size of the batch reply like any other entry
+	#[serde(default)]
+	pub malformed: bool,
 }
 
 #[derive(Clone, Debug, Serialize, Deserialize)]
@@ -214,7 +218,7 @@ impl SubCheck for Wire {
 		tier.pick(100_000, 2_000_000)
 	}
 	fn strategy(&self, _tier: Tier) -> BoxedStrategy<WireCase> {
-		let entry = (arb_gid(), 0u8..6, 0u8..3, proptest::option::weighted(0.2, 0u16..200)).prop_map(|(id, kind, handler, fail)| WireEntry { id, kind, handler, fail });
+		let entry = (arb_gid(), 0u8..6, 0u8..3, proptest::option::weighted(0.2, 0u16..200), proptest::bool::weighted(0.2)).prop_map(|(id, kind, handler, fail, malformed)| WireEntry { id, kind, handler, fail, malformed });
 		(
 			prop_oneof![3 => 40u32..400, 2 => 400u32..5_000, 1 => 5_000u32..200_000],
 			prop_oneof![6 => -2i8..=2, 1 => -30i8..30],
@@ -230,11 +234,29 @@ impl SubCheck for Wire {
 		let limit = case.limit as usize;
 		let entries: Vec<WireEntry> = if case.batch { case.entries.clone() } else { vec![case.entries[0].clone()] };
 		let n = entries.len();
-		// the last entry is sized so that the judged text (single response, or whole batch) has length limit+delta
 		let target = (limit as i64 + case.delta as i64).max(0) as usize;
-		let mut requests: Vec<J> = vec![];
-		let mut fulls: Vec<String> = vec![];
-		for (i, e) in entries.iter().enumerate() {
+		// malformed entries only in batches, with a limit the fixed error always fits into, and never all of them
+		let mut entries = entries;
+		let allow_malformed = case.batch && n >= 2 && limit >= 160;
+		for (i, e) in entries.iter_mut().enumerate() {
+			if !allow_malformed || i == 0 {
+				e.malformed = false;
+			}
+		}
+		let invalid_text = |id: &GId| response_text(id, Err((-32600, "Invalid request", None)));
+		// the last well-formed entry is sized so that the judged text (single response, or whole batch) has length limit+delta
+		let steer = (0..n).rev().find(|i| !entries[*i].malformed).unwrap_or(0);
+		let mut requests: Vec<Option<J>> = vec![None; n];
+		let mut fulls: Vec<Option<String>> = vec![None; n];
+		let fixed: usize = 2 + (n - 1);
+		let order: Vec<usize> = (0..n).filter(|i| *i != steer).chain(std::iter::once(steer)).collect();
+		for i in order {
+			let e = &entries[i];
+			if e.malformed {
+				fulls[i] = Some(invalid_text(&e.id));
+				requests[i] = Some(J::obj(vec![("jsonrpc", J::str("2.0")), ("id", e.id.to_j())]));
+				continue;
+			}
 			let hk = KINDS[e.handler as usize % 3];
 			// payload budget for this entry
 			let empty_full = match e.fail {
@@ -242,12 +264,11 @@ impl SubCheck for Wire {
 				Some(_) => response_text(&e.id, Err((-32050, "boom", Some(&J::str(""))))),
 			};
 			let budget = if case.batch {
-				let fixed: usize = 2 + (n - 1);
-				if i + 1 < n {
+				if i != steer {
 					((target.saturating_sub(fixed)) / n).saturating_sub(empty_full.len())
 				} else {
-					let before: usize = fulls.iter().map(|f| limited(f, &entries[fulls.iter().position(|x| x == f).unwrap()].id, limit).len()).sum();
-					target.saturating_sub(fixed + before + empty_full.len())
+					let others: usize = (0..n).filter(|j| *j != steer).map(|j| limited(fulls[j].as_ref().unwrap(), &entries[j].id, limit).len()).sum();
+					target.saturating_sub(fixed + others + empty_full.len())
 				}
 			} else {
 				target.saturating_sub(empty_full.len())
@@ -258,8 +279,8 @@ impl SubCheck for Wire {
 					let len = budget / ub;
 					let prefix = budget - len * ub;
 					let s = format!("{}{}", "a".repeat(prefix), big_string(len, e.kind));
-					fulls.push(response_text(&e.id, Ok(&J::str(s))));
-					requests.push(J::obj(vec![
+					fulls[i] = Some(response_text(&e.id, Ok(&J::str(s))));
+					requests[i] = Some(J::obj(vec![
 						("jsonrpc", J::str("2.0")),
 						("id", e.id.to_j()),
 						("method", J::str(format!("big_{hk}"))),
@@ -268,14 +289,22 @@ impl SubCheck for Wire {
 				}
 				Some(_) => {
 					let data = "d".repeat(budget);
-					fulls.push(response_text(&e.id, Err((-32050, "boom", Some(&J::str(data.clone()))))));
-					requests.push(J::obj(vec![
+					fulls[i] = Some(response_text(&e.id, Err((-32050, "boom", Some(&J::str(data.clone()))))));
+					requests[i] = Some(J::obj(vec![
 						("jsonrpc", J::str("2.0")),
 						("id", e.id.to_j()),
 						("method", J::str(format!("fail_{hk}"))),
 						("params", J::Arr(vec![J::num(-32050), J::str("boom"), J::str(data)])),
 					]));
 				}
+			}
+		}
+		let requests: Vec<J> = requests.into_iter().map(|r| r.unwrap()).collect();
+		let fulls: Vec<String> = fulls.into_iter().map(|f| f.unwrap()).collect();
+		if entries.iter().any(|e| e.malformed) {
+			obs.class("batch-with-malformed-entry");
+			if entries[n - 1].malformed {
+				obs.class("batch-malformed-entry-last");
 			}
 		}
 		let elems: Vec<String> = fulls.iter().zip(&entries).map(|(f, e)| limited(f, &e.id, limit)).collect();
